@@ -111,6 +111,24 @@ pub fn eval(c: &Case) -> Eval {
     ensure!(back.get_q() == c.q, "q = {} came back as {}", c.q, back.get_q());
     let sa = float_ok("a", c.a.0, back.get_a())?;
     let sb = float_ok("b", c.b.0, back.get_b())?;
+    // the reloaded value must BE the same parameters, not merely show the same four numbers: everything derived from it agrees
+    for prob in [0.0, 0.1, 0.5, 0.9, 1.0] {
+        let (l1, h1) = p.get_jaccard_bounds(prob);
+        let (l2, h2) = back.get_jaccard_bounds(prob);
+        let close = |x: f64, y: f64| if sb { x.to_bits() == y.to_bits() } else { (x - y).abs() <= 1e-9 * (1.0 + x.abs()) / (c.b.0 - 1.0).min(1.0) };
+        ensure!(close(l1, l2) && close(h1, h2), "get_jaccard_bounds({}) of the reloaded parameters is ({:e}, {:e}), of the dumped parameters ({:e}, {:e})", prob, l2, h2, l1, h1);
+    }
+    if sa && sb && c.m >= 1 && c.m <= 64 && c.q < (1u64 << 40) {
+        use probminhash::setsketcher::SetSketcher;
+        let mut s1 = SetSketcher::<u32, u64, fnv::FnvHasher>::new(p, Default::default());
+        let mut s2 = SetSketcher::<u32, u64, fnv::FnvHasher>::new(back, Default::default());
+        for x in 0..20u64 {
+            s1.sketch(&(x * 7919 + c.m)).unwrap();
+            s2.sketch(&(x * 7919 + c.m)).unwrap();
+        }
+        ensure!(s1.get_signature() == s2.get_signature() && s1.get_cardinal_stats().0.to_bits() == s2.get_cardinal_stats().0.to_bits(), "a sketcher built from the reloaded parameters gives a different sketch than one built from the dumped parameters");
+        ensure!(s1.merge(&s2).is_ok(), "sketchers built from the dumped and from the reloaded parameters refuse to merge");
+    }
     // a second dump over the existing (longer or shorter) file must fully replace it
     let p2 = SetSketchParams::new(1.5, 7, 2.0, 9);
     ensure!(matches!(catch(|| p2.dump_json(&dir.0)), Ok(Ok(()))), "second dump_json into the same directory failed");
